@@ -20,6 +20,8 @@ type RKnobs struct {
 	MaxSteps     int  `json:"max_steps"`
 	ClockWeight  int  `json:"clock_w"`
 	DrainQueueW  int  `json:"drainq_w"` // weight of draining an output queue
+	// ConcurrentStarts (C16, equal channel counts only): several StartReadCollection calls may be in flight at once
+	ConcurrentStarts bool `json:"concurrent_starts,omitempty"`
 }
 
 type RPart struct {
@@ -163,6 +165,12 @@ func GenR(rng *Rng, prop string, tier string) *RScript {
 	nT := nP
 	if prop == "C16" {
 		nT = rng.Range(1, 4)
+		if rng.Pct(35) {
+			// equal counts (the direct assignment path, no wait/forward rendezvous): starts may overlap
+			nT = nP
+			k.ConcurrentStarts = true
+			k.Yields = true
+		}
 	}
 	if manyToOne {
 		nT = rng.Range(1, nP-1)
